@@ -60,6 +60,10 @@ package sherpa
 //@   ensures res != nil && (connErr(res) || circuitOpen(res)) ==> !ghost(w).started
 //@   replay proxy_success_on_error_status@internal/adapter/proxy
 //@   at call RecordSuccess 1 assert resp.StatusCode < 400
+// once the response has started, the attempt fails exactly when the relay failed for a reason other than the client
+// going away (then as ResponseStartedError: not retried), and succeeds otherwise
+//@   at return 3 assert streamErr != nil && !errorsIs(streamErr, context.Canceled) && ghost(w).started
+//@   at return 4 assert (streamErr == nil || errorsIs(streamErr, context.Canceled)) && ghost(w).started
 //@   ensures recSuccess + recFailure == old(recSuccess) + old(recFailure) + 1
 //@   ensures res == nil ==> recSuccess == old(recSuccess) + 1 && rtCount == old(rtCount) + 1
 //@   ensures rtCount <= old(rtCount) + 1
